@@ -433,6 +433,8 @@ func (b Builder) MakeMap(t Type, nReserve Expr) (ret Expr) {
 	dbgInstrf("MakeMap %v, %v\n", t.RawType(), nReserve.impl)
 	if nReserve.IsNil() {
 		nReserve = b.Prog.Val(0)
+	} else {
+		nReserve = b.FitIntSize(nReserve)
 	}
 	typ := b.abiType(t.raw.Type)
 	ret = b.InlineCall(b.Pkg.rtFunc("MakeMap"), typ, nReserve)
@@ -605,6 +607,7 @@ func (b Builder) MakeChan(t Type, size Expr) (ret Expr) {
 	dbgInstrf("MakeChan %v, %v\n", t.RawType(), size.impl)
 	prog := b.Prog
 	eltSize := prog.IntVal(prog.SizeOf(prog.Elem(t)), prog.Int())
+	size = b.FitIntSize(size)
 	ret.Type = t
 	ret.impl = b.InlineCall(b.Pkg.rtFunc("NewChan"), eltSize, size).impl
 	return
